@@ -45,17 +45,29 @@ static SOURCE_CACHE: LazyLock<RwLock<HashMap<PathBuf, Arc<str>>>> =
     LazyLock::new(|| RwLock::new(HashMap::new()));
 
 fn cached_source(path: &PathBuf) -> Option<Arc<str>> {
+    #[cfg(assert_struct_verif)]
+    verif_hooks::sched_point(0);
     // Fast path: already cached.
     if let Ok(cache) = SOURCE_CACHE.read() {
+        #[cfg(assert_struct_verif)]
+        verif_hooks::sched_point(1);
         if let Some(content) = cache.get(path) {
             return Some(content.clone());
         }
     }
+    #[cfg(assert_struct_verif)]
+    verif_hooks::sched_point(2);
     // Slow path: read file and populate cache.
     let content: Arc<str> = std::fs::read_to_string(path).ok()?.into();
+    #[cfg(assert_struct_verif)]
+    verif_hooks::sched_point(3);
     if let Ok(mut cache) = SOURCE_CACHE.write() {
+        #[cfg(assert_struct_verif)]
+        verif_hooks::sched_point(4);
         cache.entry(path.clone()).or_insert_with(|| content.clone());
     }
+    #[cfg(assert_struct_verif)]
+    verif_hooks::sched_point(5);
     Some(content)
 }
 
@@ -504,6 +516,32 @@ pub mod verif_hooks {
                 rec.spans.push((start, end));
             }
         });
+    }
+
+    /// A scheduling hook: called at every step boundary of `cached_source` on threads that
+    /// installed one, so that a test controller can run chosen interleavings.
+    pub trait SchedHook: Send + Sync {
+        fn point(&self, k: u8);
+    }
+
+    thread_local! {
+        static SCHED: RefCell<Option<std::sync::Arc<dyn SchedHook>>> = const { RefCell::new(None) };
+    }
+
+    /// Install (or remove) the scheduling hook of this thread.
+    pub fn set_sched_hook(hook: Option<std::sync::Arc<dyn SchedHook>>) {
+        SCHED.with(|s| *s.borrow_mut() = hook);
+    }
+
+    pub(super) fn sched_point(k: u8) {
+        let hook = SCHED.with(|s| s.borrow().clone());
+        if let Some(hook) = hook {
+            hook.point(k);
+        }
+    }
+
+    pub fn cached_source(path: &PathBuf) -> Option<std::sync::Arc<str>> {
+        super::cached_source(path)
     }
 
     pub fn absolute_source_path(manifest_dir: &str, file_path: &str) -> PathBuf {
